@@ -105,6 +105,14 @@ def carried_variants(ids):
     return out
 
 
+def _with_text(doc, tag, text):
+    doc = TJ.canon(doc)
+    for c in doc[4]:
+        if c[0] == tag:
+            c[2] = text
+    return doc
+
+
 def story_cases(ns=(0, 1, 2, 3, 4), patterns=B.PATTERNS, max_src=2, big_patterns=('every', 'lead')):
     """All story-level classes over all running orders of the scope."""
     for ids, pat, ro in story_ros(ns, patterns):
@@ -152,6 +160,14 @@ def story_cases(ns=(0, 1, 2, 3, 4), patterns=B.PATTERNS, max_src=2, big_patterns
             yield case('StorySend', f'{rl(t)}',
                        B.story_send(t, [B.p('sent para'), B.item('sent-i1'), B.p(None), B.item('sent-i2')],
                                     pre=[E('storyNum', text='7')], post=[E('mosExternalMetadata', E('mosSchema', text='s'))]))
+            # ... and messages that are not schema-shaped: whatever they raise, the running order stays as it was
+            yield case('StorySend', f'{rl(t)}|no storyBody', B.story_send(t, [], body_present=False))
+            yield case('StoryReplace', f'{rl(t)}|no stories, text only', _with_text(B.story_replace(t, []), 'roStoryReplace', 'stray text'))
+            yield case('EAStoryReplace', f'{rl(t)}|no element_source', B.ea('REPLACE', {'storyID': t}, []))
+            yield case('EAStoryInsert', f'{rl(t)}|no element_source', B.ea('INSERT', {'storyID': t}, []))
+            yield case('EAStoryMove', f'{rl(t)}|no element_source', B.ea('MOVE', {'storyID': t}, []))
+            yield case('EAStorySwap', f'{rl(t)}|one ID only', B.ea('SWAP', ABSENT, [B.ids('storyID', [t])]))
+            yield case('EAStorySwap', f'{rl(t)}|three IDs', B.ea('SWAP', ABSENT, [B.ids('storyID', [t, t, UNK])]))
         for lbl, car in carried_variants(ids)[:2]:
             yield case('EAStoryInsert', f'no-target<-{lbl}', B.ea('INSERT', ABSENT, [car]))
             yield case('EAStoryReplace', f'no-target<-{lbl}', B.ea('REPLACE', ABSENT, [car]))
